@@ -1,4 +1,43 @@
 import Tfv.Model
+import Tfv.Spec.Sub
+import Tfv.Proofs.SubOrder
+/-!
+# C01 — subtyping of concrete types is exactly the declared partial order
+
+Statements only; proofs are one-liners calling lemmas of `Tfv/Proofs/SubOrder.lean`.
+-/
 namespace Tfv.C01
-theorem placeholder : True := trivial
+open Tfv
+
+/-- the decidable well-formedness check used by the driver implies `WF` -/
+theorem C01_wfLang (L : Lang) (h : wfLangB L = true) : WF L := wf_of_wfLangB L h
+
+/-- `is_subtype` decides exactly the declared order -/
+theorem C01_decides (L : Lang) (wf : WF L) (s t : Ty) (hs : wfTy L s = true) (ht : wfTy L t = true) :
+    isSubtype L s t false = true ↔ Sub L s t := isSubtype_false_iff wf s t hs ht
+
+theorem C01_refl (L : Lang) (wf : WF L) (s : Ty) (hs : wfTy L s = true) : Sub L s s := sub_refl s hs
+
+theorem C01_trans (L : Lang) (wf : WF L) (s t u : Ty)
+    (hs : wfTy L s = true) (ht : wfTy L t = true) (hu : wfTy L u = true) :
+    Sub L s t → Sub L t u → Sub L s u := sub_trans wf t s u
+
+theorem C01_antisymm (L : Lang) (wf : WF L) (s t : Ty) (hs : wfTy L s = true) (ht : wfTy L t = true) :
+    Sub L s t → Sub L t s → s = t := sub_antisymm wf s t
+
+/-- the strict form excludes exactly equality -/
+theorem C01_strict (L : Lang) (wf : WF L) (s t : Ty) (hs : wfTy L s = true) (ht : wfTy L t = true) :
+    isSubtype L s t true = true ↔ (Sub L s t ∧ s ≠ t) := isSubtype_true_iff wf s t hs ht
+
+/-- `TypeOperator.subtype` on base types is the ancestor relation plus Top/Bottom -/
+theorem C01_opSub (L : Lang) (wf : WF L) (a b : Nat) :
+    opSub L a b false = true ↔ (a = BOT ∨ b = TOP ∨ Anc L a b) := opSub_iff wf a b
+
+/-- non-vacuity: a concrete well-formed language and types meeting the hypotheses -/
+def exL : Lang := builtinDecls ++ [⟨"A", [], none⟩, ⟨"B", [], some 5⟩, ⟨"F", [true, false], none⟩]
+example : wfLangB exL = true := by decide
+example : wfTy exL (.app 7 [.app 6 [], .app 5 []]) = true := by decide
+example : isSubtype exL (.app 7 [.app 6 [], .app 5 []]) (.app 7 [.app 5 [], .app 6 []]) true = true := by decide
+example : isSubtype exL (.app 7 [.app 5 [], .app 5 []]) (.app 7 [.app 6 [], .app 6 []]) false = false := by decide
+
 end Tfv.C01
